@@ -277,12 +277,13 @@ func (ck *checker) validCase(c cell, p predictor.Params, rng *rand.Rand, caseNo 
 	if caseNo%3 == 0 {
 		ecs = append(ecs, 1)
 	}
+	lz := [2][]byte{reflzw.Encode(predicted, 0), reflzw.Encode(predicted, 1)}
 	for _, ec := range ecs {
 		refEC := 1
 		if ec == 0 {
 			refEC = 0
 		}
-		if check("lzw", filter.LZW, withEC(parms, ec), reflzw.Encode(predicted, refEC)) {
+		if check("lzw", filter.LZW, withEC(parms, ec), lz[refEC]) {
 			st.lzwOK++
 		}
 	}
